@@ -110,13 +110,14 @@ INT_RANGES = {
 
 
 class I:
-    __slots__ = ("v", "ty")
+    __slots__ = ("v", "ty", "ub")
 
-    def __init__(self, v, ty=None):
+    def __init__(self, v, ty=None, ub=None):
         if isinstance(v, bool):
             v = int(v)
         self.v = v
         self.ty = ty
+        self.ub = ub      # known small upper bound (lengths), lets casts enumerate
 
     def z(self):
         return z3.IntVal(self.v) if isinstance(self.v, int) else self.v
